@@ -65,6 +65,8 @@ func cmdCheck(args []string) {
 	prop := fs.String("prop", "", "property id")
 	tier := fs.String("tier", "quick", "quick|thorough")
 	evPath := fs.String("evidence", "", "evidence file")
+	anchors := fs.Bool("anchors", true, "also select every function under contract defined in the property's anchor files")
+	propsFile := fs.String("properties", "/verif/properties.jsonl", "the given properties (anchors)")
 	closure := fs.Bool("closure", true, "also prove the contracts of the repository callees the selected functions rely on")
 	knownPath := fs.String("known", "/verif/known_findings.json", "known findings file")
 	outDir := fs.String("out", "", "output dir")
@@ -124,11 +126,42 @@ func cmdCheck(args []string) {
 		}
 	}
 
-	// select functions
+	// select functions: those whose contract (or one of whose clauses) is tagged with the property, and every function
+	// under contract that is defined in one of the files the property is anchored in (properties.jsonl): hand-kept tags
+	// alone left functions out that a property plainly is about (the Sub views and mount operations under C03, the os
+	// operations under C07 - found by seeded changes that the check of the property itself did not notice)
+	anchorFiles := map[string]bool{}
+	if *anchors {
+		if b, err := os.ReadFile(*propsFile); err == nil {
+			for _, line := range strings.Split(string(b), "\n") {
+				var p struct {
+					ID      string `json:"id"`
+					Anchors struct {
+						Files []string `json:"files"`
+					} `json:"anchors"`
+				}
+				if json.Unmarshal([]byte(line), &p) == nil && p.ID == *prop {
+					for _, f := range p.Anchors.Files {
+						anchorFiles[f] = true
+					}
+				}
+			}
+		}
+	}
 	var keys []string
+	var viaAnchor []string
 	for _, k := range sortedKeys(eng.cs.Funcs) {
 		c := eng.cs.Funcs[k]
 		tagged := hasProp(c.Props, *prop)
+		if !tagged && len(anchorFiles) > 0 {
+			if fn := eng.funcs[k]; fn != nil && fn.Pos().IsValid() {
+				file := eng.prog.Fset.Position(fn.Pos()).Filename
+				if rel, err := filepath.Rel(*repo, file); err == nil && anchorFiles[filepath.ToSlash(rel)] && !c.Iface && c.Assumed == "" && !c.Inline {
+					tagged = true
+					viaAnchor = append(viaAnchor, calleeShort(k))
+				}
+			}
+		}
 		for _, en := range c.Ensures {
 			if hasProp(en.Props, *prop) {
 				tagged = true
@@ -490,6 +523,7 @@ func cmdCheck(args []string) {
 		"trusted_base":             trusted,
 		"functions_under_contract": funcsUnder,
 		"functions_added_by_callee_closure": closureFns(viaClosure),
+		"functions_selected_through_anchor_files": nonNil(viaAnchor),
 		"contracts_of_unexported_functions_no_longer_in_the_tree": nonNil(removedHelpers),
 		"closure_obligations_left_to_their_own_property": nonNil(closureSkipped),
 		"by_backend":               byBackend,
